@@ -1177,6 +1177,7 @@ def check_impl(ctx, tu, f, cfgname, chains, depth=0, signs_in=None):
     # ---- OpenMP: every dispatch loop must sit in a construct that joins before parallel_for returns
     jprobs = []
     joks = []
+    omp_clause_jobs = []
     omp = [n for n in fn_stmts(tu, f) if n.get('kind', '').startswith('OMP') and n.get('kind', '').endswith('Directive')]
     if omp:
         kinds.add('omp')
@@ -1193,6 +1194,7 @@ def check_impl(ctx, tu, f, cfgname, chains, depth=0, signs_in=None):
             anc = [d for sz, d in sorted(anc, key=lambda z: z[0])]
             for d in anc:
                 used.add(d['id'])
+            omp_clause_jobs.append((li, anc))
             verdict = omp_join(tu, g, anc)
             if verdict[0] == 'ok':
                 if anc:
@@ -1219,6 +1221,35 @@ def check_impl(ctx, tu, f, cfgname, chains, depth=0, signs_in=None):
     exits, seen = count_paths(tu, g, events, ppath, sg0 or signs_of_type(nct))
     for k, t in once_verdict(exits, und):
         problems.append((k, t, None))
+    # ---- OpenMP clauses that take a value: it must be valid for every count that reaches the directive
+    for li_, anc_ in omp_clause_jobs:
+        sg_ = set(seen.get(li_.decl_stmt, sg0)) if li_.decl_stmt else set(sg0)
+        lo_, hi_ = range_for_signs(nct, sg_)
+        for d_ in anc_:
+            cls = tu.sd(d_).get('clauses', [])
+            kids_ = [k_ for k_ in d_.get('inner', ()) if isinstance(k_, dict) and not k_.get('kind')]
+            for ci, cname in enumerate(cls):
+                if cname not in ('num_threads', 'grainsize', 'num_tasks') or ci >= len(kids_):
+                    continue
+                exprs = [x for x in kids_[ci].get('inner', ()) if isinstance(x, dict) and x.get('kind')]
+                if not exprs:
+                    und.append('value of the OpenMP clause `%s` is not available' % cname)
+                    continue
+                iv_o = Ival(tu, {ppath: (lo_, hi_)}, defs, None)
+                iv_o.assume_positive = True
+                vo = iv_o.ev(exprs[0])
+                iv_p = Ival(tu, {ppath: (lo_, hi_)}, defs, None)
+                vp = iv_p.ev(exprs[0])
+                if vo is not None and vo[0] < 0:
+                    problems.append(('omp-clause-value',
+                                     'the OpenMP clause `%s(%s)` must be given a positive value, but its argument is negative (down to %d) '
+                                     'when the count is negative - the directive is reached for every count, there is no guard in front '
+                                     'of it: the runtime takes the value for a huge unsigned team / chunk size and aborts (or spawns '
+                                     'threads without bound) instead of simply running nothing' % (cname, tu.show(exprs[0]), vo[0]), d_))
+                elif vo is not None and vo[0] == 0 and (vp is None or vp[0] >= 0):
+                    pass        # 0 selects the default in the OpenMP runtimes: not a defect of the dispatch
+                elif vp is None or vp[0] < 0 or iv_p.unknown:
+                    und.append('cannot show that the value of the OpenMP clause `%s(%s)` is positive' % (cname, tu.show(exprs[0])))
     for n_, cf_ in helper_calls:
         # the helper only ever sees the counts that pass the guards in front of this call
         sub = check_impl(ctx, tu, cf_, cfgname, chains, depth + 1, signs_in=set(seen.get(n_['id'], sg0)))
@@ -1380,7 +1411,24 @@ class Store:
         return Lin.atom(('init', p))
 
     def env(self):
-        return LinEnv(self.tu, on_read=lambda p, n: self.read(p))
+        def on_read(p, n):
+            v = self.read(p)
+            if v == Lin.atom(('init', p)):
+                cv = self.tu.sd(n).get('cv')      # a compile-time constant (static const / constexpr) that nobody wrote
+                if cv is not None:
+                    try:
+                        return Lin.const(int(cv))
+                    except ValueError:
+                        pass
+            return v
+
+        def on_call(c, e):
+            cf = inlinable(self.tu, c)
+            if cf is None or c.get('kind') != 'CallExpr':
+                return None
+            av = [lin(self.tu, a_, e) if irange(self.tu.sd(a_).get('ct')) is not None else None for a_ in self.tu.kids(c)[1:]]
+            return fn_value(self.tu, cf, av, e)
+        return LinEnv(self.tu, on_read=on_read, on_call=on_call)
 
     def ev(self, e):
         return lin(self.tu, e, self.env())
@@ -1643,7 +1691,8 @@ def fn_value(tu, f, args, env_outer=None, depth=0):
             return None
         blk = g.blocks[bid]
         st = st.clone()
-        env = LinEnv(tu, on_read=lambda p, n: st.read(p), on_call=on_call)
+        env = st.env()
+        env.on_call = on_call
         for e in blk.el:
             if e[0] != 'S':
                 continue
@@ -3478,6 +3527,144 @@ def check_thread_identity(ctx, tu):
     ctx.floor(R, n_inst, 3, 'TryRunTask call sites: worker thread function, WaitforTask, WaitforAll')
 
 
+def check_partition_divisors(ctx, tu):
+    """R-C01-6g: AddTaskSetToPipe divides the set size by scheduler members (number of partitions); whichever function
+    sets those members must leave them >= 1 for every thread count >= 1 - with one thread too - or scheduling the task set
+    divides by zero."""
+    R = 'R-C01-6g'
+    ctx.describe(R, 'the scheduler members AddTaskSetToPipe divides the set size by are >= 1 for every thread count >= 1')
+    fs = tu.fns(q=TS + 'AddTaskSetToPipe', dep=False)
+    if not fs or tu.cfg(fs[0]) is None:
+        return
+    f = fs[0]
+    inst0 = '[INTERNAL] TaskScheduler::AddTaskSetToPipe'
+    members = {}        # member name -> division node
+
+    def scan(fn, amap, depth):
+        g = tu.cfg(fn)
+        for b, i, n in g.stmts():
+            if n.get('kind') == 'BinaryOperator' and n.get('opcode') in ('/', '%'):
+                dp = access_path(tu, tu.kids(n)[1])
+                hops = 0
+                while dp in amap and hops < 3:
+                    dp = access_path(tu, amap[dp])
+                    hops += 1
+                if dp is not None and dp[0] == 'this' and len(dp) == 2:
+                    members.setdefault(dp[1], n)
+                elif dp is not None and const_value(tu, tu.kids(n)[1]) is None and dp[0] == 'v' and fn is f:
+                    pass
+            elif n.get('kind') in CALLS and depth < 2:
+                cf = inlinable(tu, n)
+                if cf is not None and not cf['dep'] and tu.sd(n).get('q') != TS + 'SplitAndAddTask':
+                    s_, obj, args = tu.call_parts(n)
+                    scan(cf, {param_path(p_): a_ for p_, a_ in zip(cf['params'], args)}, depth + 1)
+    scan(f, {}, 0)
+    if not members:
+        ctx.ok(R, inst0, 'no division by a scheduler member', tu.fn_loc(f), nontrivial=False)
+        return
+    n_inst = 0
+    TH = ('this', 'm_NumThreads')
+    for X, divnode in sorted(members.items()):
+        inst = '[INTERNAL] TaskScheduler::%s' % X
+        writers = []
+        for w in tu.functions.values():
+            wg = tu.cfg(w)
+            if w['dep'] or wg is None or w.get('ctor') or w.get('rec') != 'enki::TaskScheduler':
+                continue
+            if any(p_ == ('this', X) for p_, k_, n_ in find_writes(tu, wg, set(wg.blocks))):
+                writers.append(w)
+        n_inst += 1
+        if len(writers) != 1:
+            ctx.undecided(R, inst, '`%s` (a divisor in AddTaskSetToPipe) is assigned in %d functions' % (X, len(writers)), tu.loc(divnode))
+            continue
+        w = writers[0]
+        wg = tu.cfg(w)
+        if any(p_ == TH for p_, k_, n_ in find_writes(tu, wg, set(wg.blocks))):
+            ctx.undecided(R, inst, '`%s` also changes m_NumThreads' % w['q'], tu.fn_loc(w))
+            continue
+        heads = sorted({t for s_, t in wg.back_edges()})
+        start = wg.entry
+        if len(heads) == 1:
+            H = wg.blocks[heads[0]]
+            L = natural_loop(wg, H.id)
+            if any(p_ == ('this', X) for p_, k_, n_ in find_writes(tu, wg, L)) or len(H.succ) != 2 or H.succ[1] is None:
+                ctx.undecided(R, inst, '`%s` is assigned inside a loop of %s' % (X, w['q']), tu.fn_loc(w))
+                continue
+            start = H.succ[1]
+        elif heads:
+            ctx.undecided(R, inst, '%s has several loops' % w['q'], tu.fn_loc(w))
+            continue
+        try:
+            paths = sym_paths(tu, wg, start, set(), Store(tu))
+        except ValueError as e:
+            ctx.undecided(R, inst, 'paths of %s cannot be enumerated (%s)' % (w['q'], e), tu.fn_loc(w))
+            continue
+        worst = None
+        undec = None
+        for stop, st in paths:
+            v = st.read(('this', X))
+            if v == Lin.atom(('init', ('this', X))):
+                continue                      # not assigned on this path (early return)
+            envi = {('init', TH): (1, (1 << 32) - 1), '__facts__': set(st.conds)}
+            feasible = not any(negate_cmp(c) in envi['__facts__'] for c in st.conds)
+            for c in st.conds:
+                iv_ = lin_interval(c[2], envi)
+                if iv_ is None:
+                    continue
+                elo, ehi = iv_
+                if not {'<': elo < 0, '<=': elo <= 0, '==': elo <= 0 <= ehi, '!=': not (elo == ehi == 0)}[c[1]]:
+                    feasible = False
+            if not feasible:
+                continue
+            # equalities on the thread count pin it
+            for c in st.conds:
+                if c[1] == '==' and set(c[2].t) == {('init', TH)}:
+                    co = c[2].t[('init', TH)]
+                    val = -c[2].c / co
+                    envi[('init', TH)] = (int(val), int(val))
+                if c[1] == '!=' and set(c[2].t) == {('init', TH)} and -c[2].c / c[2].t[('init', TH)] == 1:
+                    envi[('init', TH)] = (2, (1 << 32) - 1)
+            iv = lin_interval(v, envi)
+            if iv is None:
+                undec = 'value `%r` of %s set by %s' % (v, X, w['q'].split('::')[-1])
+                continue
+            lo_i, hi_i = iv
+            for c in st.conds:          # path conditions on the value itself
+                for sgn, d_ in ((1, c[2]), (-1, -c[2])):
+                    if d_ != v:
+                        continue
+                    if c[1] == '!=':
+                        if lo_i == 0:
+                            lo_i = 1
+                        if hi_i == 0:
+                            hi_i = -1
+                    elif c[1] == '==':
+                        lo_i = hi_i = 0
+                    elif sgn == 1:
+                        hi_i = min(hi_i, -1 if c[1] == '<' else 0)
+                    else:
+                        lo_i = max(lo_i, 1 if c[1] == '<' else 0)
+            iv = (lo_i, hi_i)
+            if lo_i > hi_i:
+                continue
+            if iv[0] <= 0 and (worst is None or iv[0] < worst[0]):
+                br = [e_ for e_ in st.events if e_[0] == 'branch']
+                worst = (iv[0], v, envi[('init', TH)], br)
+        if worst is not None:
+            lo_, v, thr, br = worst
+            ctx.violation(R, inst, '%s sets `%s` to `%s`, which is %d for a thread count of %d; AddTaskSetToPipe divides the size of every '
+                          'task set by it (`%s`): with that many threads every parallel_for divides by zero (or splits into empty '
+                          'partitions) instead of running its indices'
+                          % (w['q'].split('::')[-1], X, repr(v).replace("this.", '').replace('@entry', ''), lo_, thr[0],
+                             tu.show(divnode)), tu.loc(divnode),
+                          key='%s|%s|TaskScheduler::%s|%s-not-positive' % (R, F_ENKI, w['q'].split('::')[-1], X))
+        elif undec:
+            ctx.undecided(R, inst, 'cannot bound the %s' % undec, tu.fn_loc(w))
+        else:
+            ctx.ok(R, inst, '>= 1 on every path of %s for m_NumThreads >= 1' % w['q'].split('::')[-1], tu.fn_loc(w))
+    ctx.floor(R, n_inst, 2, 'm_NumPartitions and m_NumInitialPartitions')
+
+
 def check_count_stores(ctx, tu):
     """(d) plain stores to ITaskSet::m_RunningCount only before the task is published"""
     R = 'R-C01-6'
@@ -3926,6 +4113,10 @@ def local_defs(tu, fns):
     return {p: e for p, e in defs.items() if p not in written}
 
 
+POSITIVE_CALLS = ('omp_get_max_threads', 'omp_get_num_procs', 'omp_get_num_threads', 'omp_get_thread_limit',
+                  'std::thread::hardware_concurrency')
+
+
 class Ival:
     """interval evaluation of an integer expression over the mathematical integers; records every node whose exact
     result interval does not fit its own (computation or cast target) type"""
@@ -3937,6 +4128,7 @@ class Ival:
         self.wraps = []
         self.unknown = []
         self.pmap = {}       # parameter path of an inlined helper -> Lin of its argument (caller's terms)
+        self.assume_positive = False   # treat the value of unknown calls as >= 1 (to see what the known operands alone force)
         self.env = LinEnv(tu, on_read=self._subst, on_call=self._call_lin)
 
     def _subst(self, p, n):
@@ -4197,6 +4389,12 @@ class Ival:
                 if sp is not None:
                     iv = (max(iv[0], sp[0]), min(iv[1], sp[1]))
                 return iv
+            q_ = tu.sd(n).get('q', '')
+            r_ = irange(tu.sd(n).get('ct'))
+            if r_ is not None and (q_ in POSITIVE_CALLS or self.assume_positive):
+                if q_ not in POSITIVE_CALLS:
+                    self.unknown.append(tu.show(n))
+                return (1, r_[1])
         self.unknown.append(tu.show(n))
         return irange(tu.sd(n).get('ct'))
 
@@ -4235,6 +4433,49 @@ def lin_interval(v, envi, depth=0):
     return (lo, hi)
 
 
+def refine_env(c, envi, truth):
+    """envi with the interval of the one variable a comparison `co*var + k rel 0` speaks about narrowed to the side on
+    which the comparison is `truth`; None if that side is empty; envi itself if the comparison has another shape"""
+    if not isinstance(c, tuple) or c[0] != 'cmp' or len(c[2].t) != 1:
+        return envi
+    (var, co), = c[2].t.items()
+    if var not in envi or envi[var] is None or co not in (1, -1):
+        return envi
+    lo, hi = envi[var]
+    k = c[2].c
+    rel = c[1]
+    if not truth:
+        rel = {'<': '>=', '<=': '>', '==': '!=', '!=': '=='}[rel]
+    # co*var + k rel 0
+    if co == -1:
+        # -var + k rel 0  <=>  var rel' k  with the inequality mirrored
+        rel = {'<': '>', '<=': '>=', '>': '<', '>=': '<=', '==': '==', '!=': '!='}[rel]
+        b = k
+    else:
+        b = -k
+    b = int(b)
+    if rel == '<':
+        hi = min(hi, b - 1)
+    elif rel == '<=':
+        hi = min(hi, b)
+    elif rel == '>':
+        lo = max(lo, b + 1)
+    elif rel == '>=':
+        lo = max(lo, b)
+    elif rel == '==':
+        lo, hi = max(lo, b), min(hi, b)
+    else:
+        if lo == b:
+            lo += 1
+        if hi == b:
+            hi -= 1
+    if lo > hi:
+        return None
+    e2 = dict(envi)
+    e2[var] = (lo, hi)
+    return e2
+
+
 def atom_interval(a, envi, depth):
     if a in envi:
         return envi[a]
@@ -4267,14 +4508,29 @@ def atom_interval(a, envi, depth):
         return (1, 1) if t[0] else (0, 0) if t[1] else (0, 1)
     if k == 'ite':
         c = atom_interval(a[1], envi, depth)
-        x, y = lin_interval(a[2], envi, depth), lin_interval(a[3], envi, depth)
         if c == (1, 1):
-            return x
+            return lin_interval(a[2], envi, depth)
         if c == (0, 0):
+            return lin_interval(a[3], envi, depth)
+        # undetermined: each branch is evaluated under what its side of the condition says about a single variable
+        et, ef = refine_env(a[1], envi, True), refine_env(a[1], envi, False)
+        x = lin_interval(a[2], et, depth) if et is not None else None
+        y = lin_interval(a[3], ef, depth) if ef is not None else None
+        if et is None and ef is None:
+            return None
+        if et is None:
             return y
+        if ef is None:
+            return x
         if x is None or y is None:
             return None
         return (min(x[0], y[0]), max(x[1], y[1]))
+    if k == 'mul':
+        x, y = lin_interval(a[1], envi, depth), lin_interval(a[2], envi, depth)
+        if x is None or y is None:
+            return None
+        c = [x[0] * y[0], x[0] * y[1], x[1] * y[0], x[1] * y[1]]
+        return (min(c), max(c))
     if k in ('min', 'max'):
         ivs = [lin_interval(m, envi, depth) for m in a[1]]
         if any(i is None for i in ivs):
@@ -5377,6 +5633,7 @@ def run(ctx):
     n = check_count_stores(ctx, tu_enki)
     check_pipe_protocol(ctx, tu_enki)
     check_thread_identity(ctx, tu_enki)
+    check_partition_divisors(ctx, tu_enki)
     ctx.floor('R-C01-6(d)', n, 1, 'the reset of m_RunningCount in AddTaskSetToPipe')
     n6 = sum(1 for o in ctx.obl if o['rule'] == 'R-C01-6')
     ctx.floor('R-C01-6', n6, 4, 'SplitTask, SplitAndAddTask, TryRunTask, the count reset')
